@@ -174,6 +174,8 @@ class Context:
             prop = to_string(args[0]) if args else "undefined"
             if isinstance(this_val, JSObject):
                 return this_val.has_own(prop)
+            if isinstance(this_val, JSFunction):
+                return VM._function_has_own(this_val, prop)
             if isinstance(this_val, str):
                 return prop == "length" or (
                     prop.isdigit() and str(int(prop)) == prop and int(prop) < len(this_val)
@@ -211,12 +213,16 @@ class Context:
                 return [str(i) for i in range(len(obj))]
             if isinstance(obj, JSObject):
                 return obj.keys()
+            if isinstance(obj, JSFunction):
+                return list(obj._properties)
             return []
 
         def own_value(obj, key):
             """obj[key] for an own key, as a script reads it (getters run on obj)."""
             if isinstance(obj, str):
                 return obj[int(key)]
+            if isinstance(obj, JSFunction):
+                return obj._properties[key]
             if obj.is_accessor(key):
                 getter = obj._getters.get(key)
                 if getter is None:
@@ -264,6 +270,8 @@ class Context:
 
         def get_prototype_of(*args):
             obj = args[0] if args else UNDEFINED
+            if isinstance(obj, JSFunction):
+                return self._globals["Function"].get("prototype")
             if not isinstance(obj, JSObject):
                 return NULL
             return getattr(obj, "_prototype", NULL) or NULL
@@ -998,7 +1006,7 @@ class Context:
         fn_constructor = JSCallableObject(function_constructor_fn)
 
         # Function.prototype - add basic methods
-        fn_prototype = JSObject()
+        fn_prototype = JSObject(self._object_prototype)
 
         # These are implemented in VM's _get_property for JSFunction
         # but we still set them here for completeness
